@@ -509,8 +509,9 @@ def run(ctx):
         "closeconn: scripted broker (httptest, counts the polls of /client, may hold the first one) and in-process pion answerer in the same driver; smux/kcp-go/RedialPacketConn are exercised, not verified; Close bound 15 s, polls watched for 2 x ReconnectTimeout + 2 s after Close",
     ]
     ctx.assumptions += [
-        "model = coq/Model/Peers.v (interleaving machine, V1 = code with proposed-fixes/C15-*.diff), coq/Model/Connect.v and coq/Model/CloseConn.v (SnowflakeConn.Close over the Peers machine); tie = correspondence on scripted schedules run to quiescence after each op, and on Dial/Close scenarios through the exported API",
+        "model = coq/Model/Peers.v (interleaving machine, V1 = code with proposed-fixes/C15-*.diff) under coq/Model/PeerLife.v (WebRTCPeer.Close as two steps - begin, with the flag Closed() reads set first, and end - and peers quiet for longer than SnowflakeTimeout; the peers scripts run on this composed machine), coq/Model/Connect.v and coq/Model/CloseConn.v (SnowflakeConn.Close over the Peers machine); tie = correspondence on scripted schedules run to quiescence after each op, and on Dial/Close scenarios through the exported API",
         "one collector thread (connectLoop) per Peers; WebRTCPeer.Close and library calls return",
+        "scripted peers have a never-connected pion DataChannel as transport; xb<k> parks a Close call inside cleanup() by holding a read lock of that DataChannel's mutex (reached through reflect/unsafe: pion's DataChannel.Close begins with d.mu.Lock()), xe<k> releases it; s<k>/r<k> set the peer's lastReceive field to SnowflakeTimeout + 1 min ago / now (no staleness checker runs for scripted peers: the script decides when a peer is closed); 'closed' in the driver's answers is the state of the peer's closed channel itself, not what Closed() returns",
         "scripts whose outcome depends on the Go scheduler (flagged by the model adapter) are not compared",
         "failures of CreateDataChannel/CreateOffer/SetLocalDescription are covered by the theorem but cannot be provoked in the unmodified code (only webrtc.Configuration{ICEServers} reaches pion; reasons in the header of coq/Properties/C15.v), so the correspondence does not exercise them",
         "every connect / close / retry scenario has an event listener that does what client/snowflake.go's ptEventLogger does (pt.Log(pt.LogSeverityNotice, e.String()), goptlib's Stdout redirected to io.Discard); a panic in it is caught and reported as term=1 (key client-process-terminated): in the client binary it would end the process",
